@@ -217,7 +217,7 @@ func runScenario(r *rand.Rand, scn int, nq, nwrites int, garble bool) ([]Ev, err
 	// queries with distinct filters
 	seen := map[string]bool{}
 	for len(s.queries) < nq {
-		f, a := sqlzoo.RandomFilter(r, []string{"id", "org", "name", "age", "nick", "kind", "small"})
+		f, a := sqlzoo.RandomFilter(r, []string{"id", "org", "name", "age", "nick", "kind", "small", "note"})
 		bq, err := db.Schema.MakeSelect(&[]*sqlzoo.User{}, f, nil)
 		if err != nil {
 			return nil, err
